@@ -1216,11 +1216,11 @@ class ItemSpaceParent(ItemFactoryImpl, BaseNamespaceReferrer, HasFormula):
             if self.formula is not None:
                 self.del_formula()
         else:
+            if not isinstance(formula, ParamFunc):
+                # Raise before deleting the existing formula if malformed
+                formula = ParamFunc(formula, name="_formula")
             if self.formula is None:
-                if isinstance(formula, ParamFunc):
-                    self.formula = formula
-                else:
-                    self.formula = ParamFunc(formula, name="_formula")
+                self.formula = formula
                 self.altfunc = BoundFunction(self)
                 self.altfunc.notify()
             else:
